@@ -62,7 +62,12 @@ class _RequestHandler:
         self.logger.info("<= [%s]: %s", client_address, data)
         try:
             response = {}
-            request = json.loads(data)
+            try:
+                request = json.loads(data)
+            except (ValueError, RecursionError) as e:
+                # Too deeply nested documents and too large numbers are
+                # not reported as a JSONDecodeError. Treat them as such.
+                raise json.decoder.JSONDecodeError(format(e), data, 0)
             self.logger.debug("Delivering request")
             response = self.protocol.handle_request(request)
             self.logger.debug("Got response: %s", response)
